@@ -407,10 +407,14 @@ def run_pair(case):
     combos = [(X0, Y0)]
     ka, kb = kinds_for(case, 'a'), kinds_for(case, 'b')
     if job.get('all_kinds'):
-        for (kind, k, v) in ka:
-            combos.append((operand(base, kind, a, k, v), Y0))
-        for (kind, k, v) in kb:
-            combos.append((X0, operand(base, kind, b, k, v)))
+        # every realisation of one side (which side: by the pair's hash)
+        # against the plain Declaration of the other
+        if rnd.random() < 0.5:
+            for (kind, k, v) in ka:
+                combos.append((operand(base, kind, a, k, v), Y0))
+        else:
+            for (kind, k, v) in kb:
+                combos.append((X0, operand(base, kind, b, k, v)))
     (kind, k, v) = rnd.choice(ka)
     (kind2, k2, v2) = rnd.choice(kb)
     combos.append((operand(base, kind, a, k, v),
